@@ -210,3 +210,48 @@ def late_binding_closures(fn):
     # drop closures that are called right where they are created
     calls = {id(c.func) for c in ast.walk(fn) if isinstance(c, ast.Call)}
     return [(c, v, lp) for c, v, lp in out if id(c) not in calls]
+
+
+def none_default(fn, name: str):
+    """The idiom `if <name> is None: <name> = <expr>` (exactly that: one test, one assignment, no else) among
+    the statements of `fn`.  Returns the <expr> node, or None when the idiom is absent or has another shape
+    (inverted test, missing assignment, extra arm)."""
+    for s in walk_shallow(fn):
+        if isinstance(s, ast.If) and isinstance(s.test, ast.Compare) and len(s.test.ops) == 1 and isinstance(s.test.ops[0], ast.Is) \
+                and isinstance(s.test.left, ast.Name) and s.test.left.id == name \
+                and isinstance(s.test.comparators[0], ast.Constant) and s.test.comparators[0].value is None:
+            if len(s.body) == 1 and not s.orelse and isinstance(s.body[0], ast.Assign) and len(s.body[0].targets) == 1 \
+                    and isinstance(s.body[0].targets[0], ast.Name) and s.body[0].targets[0].id == name:
+                return s.body[0].value
+            return None
+    return None
+
+
+def yield_counts(stmts, _acc=0):
+    """Set of possible numbers of `yield`s executed by one pass through `stmts` (paths ending in `raise` are
+    dropped, `return`/`continue`/`break` end the pass).  Loops inside are not supported (returns {None})."""
+    states = {_acc}
+    for s in stmts:
+        nxt = set()
+        for st in states:
+            if st is None:
+                nxt.add(None)
+                continue
+            if isinstance(s, ast.Raise):
+                continue
+            if isinstance(s, (ast.Return, ast.Continue, ast.Break)):
+                nxt.add(("end", st))
+                continue
+            if isinstance(st, tuple):
+                nxt.add(st)
+                continue
+            if isinstance(s, ast.If):
+                nxt |= yield_counts(s.body, st) | yield_counts(s.orelse, st)
+            elif isinstance(s, (ast.For, ast.While, ast.Try, ast.With)):
+                inner = any(isinstance(x, (ast.Yield, ast.YieldFrom)) for x in ast.walk(s))
+                nxt.add(None if inner else st)
+            else:
+                ny = sum(1 for x in ast.walk(s) if isinstance(x, (ast.Yield, ast.YieldFrom)))
+                nxt.add(st + ny)
+        states = nxt
+    return states
